@@ -62,6 +62,9 @@ type rwOp struct {
 	// registered, until the target's next connect (or the end of the history): what arrives for that shard meanwhile
 	// meets a closed channel
 	Window bool `json:"window,omitempty"`
+	// Lanes (ack): the target runs the tiered replication stack and reports per-priority states next to the overall
+	// level (which is their minimum): 1 = its high-priority lane is ahead by N, 2 = its low-priority lane is ahead by N
+	Lanes int `json:"lanes,omitempty"`
 }
 
 type rwTaskSpec struct {
